@@ -11,7 +11,7 @@ import subprocess
 import time
 from concurrent.futures import ThreadPoolExecutor
 
-from vcommon import (Infra, build_harness, copy_specs, monitor_report, run, scratch_dir, tlc, tlc_errors, tlc_stats,
+from vcommon import (Infra, drive, build_harness, copy_specs, monitor_report, run, scratch_dir, tlc, tlc_errors, tlc_stats,
                      tlc_violations)
 
 PROPS = ["C01", "C02", "C03", "C11", "C17", "C18", "C23", "C24"]
@@ -80,10 +80,8 @@ def compute(tier, seed):
         cat = export_catalog(work)
         sbin = build_harness("search")
         outdir = os.path.join(work, "run")
-        rc, txt, hsecs = run([sbin, "-out", outdir, "-catalog", cat, "-n", str(NCASES[tier]), "-seed", str(seed),
-                              "-tier", tier], timeout=6000, check=False)
-        if rc != 0:
-            raise Infra("search harness failed (%d): %s" % (rc, txt[-3000:]))
+        txt, hsecs = drive([sbin, "-out", outdir, "-catalog", cat, "-n", str(NCASES[tier]), "-seed", str(seed),
+                              "-tier", tier], work, "search", timeout=6000)
         summary = json.load(open(os.path.join(outdir, "summary.json")))
         obs_path = os.path.join(outdir, "obs.ndjson")
         viol, stats, nobs = run_monitor(work, obs_path)
